@@ -109,3 +109,8 @@ package escape
 //@   ensures invoke_receiver: c.callsite.Call.IsInvoke() ==> called(mapNode, vnode(c.nodes, c.callsite.Call.Value), vnode(old(c.prog.summaries[callee].nodes), callee.Params[0]))
 //@   ensures invoke_args: forall i int :: c.callsite.Call.IsInvoke() && 0 <= i && i < len(c.callsite.Call.Args) && lang.IsNillableType(c.callsite.Call.Args[i].Type()) ==> called(mapNode, vnode(c.nodes, c.callsite.Call.Args[i]), vnode(old(c.prog.summaries[callee].nodes), callee.Params[i + 1]))
 //@   ensures static_args: forall i int :: !c.callsite.Call.IsInvoke() && 0 <= i && i < len(c.callsite.Call.Args) && lang.IsNillableType(c.callsite.Call.Args[i].Type()) ==> called(mapNode, vnode(c.nodes, c.callsite.Call.Args[i]), vnode(old(c.prog.summaries[callee].nodes), callee.Params[i]))
+//@   ensures tracked_struct_args: forall i int :: !c.callsite.Call.IsInvoke() && 0 <= i && i < len(c.callsite.Call.Args) && IsEscapeTracked(c.callsite.Call.Args[i].Type()) ==> called(mapNode, vnode(c.nodes, c.callsite.Call.Args[i]), vnode(old(c.prog.summaries[callee].nodes), callee.Params[i]))
+
+//@ func IsEscapeTracked
+//@   property C14
+//@   pure
